@@ -31,11 +31,14 @@ def sh(cmd, cwd, timeout=900, env=None):
 def main():
     pid, k = sys.argv[1], sys.argv[2]
     checks = sys.argv[3:] or ALL
-    seed = f"/tmp/wt/{pid}/SEED"
+    base = os.environ.get("SEED_BASE", "/tmp/wt")
+    tag = os.environ.get("SEED_TAG", "")
+    seed = f"{base}/{pid}/SEED"
     patch = f"{seed}/patch{k}.diff"
     meta = json.load(open(f"{seed}/meta{k}.json"))
-    wt = f"/tmp/ev/{pid}-{k}"
-    res = {"id": f"{pid}-{k}", "property": pid, "meta": meta, "confirmed": False, "checks": {}}
+    name = f"{pid}-{tag}{k}"
+    wt = f"/tmp/ev/{name}"
+    res = {"id": name, "property": pid, "meta": meta, "confirmed": False, "checks": {}}
     os.makedirs("/tmp/ev/results", exist_ok=True)
     subprocess.run(f"git -C /repo worktree remove --force {wt}", shell=True, capture_output=True)
     shutil.rmtree(wt, ignore_errors=True)
@@ -48,13 +51,13 @@ def main():
         dd = meta.get("demo_dir", ".").strip().lower()
         if dd.startswith("cmd/pql") or dd.startswith("./cmd/pql") or "cmd/pql" in dd.split(" ")[0]:
             demo_dir = os.path.join(wt, "cmd/pql")
-        elif dd.startswith("parser") or dd.startswith("./parser") or dd.startswith(f"/tmp/wt/{pid.lower()}/parser"):
+        elif dd.startswith("parser") or dd.startswith("./parser"):
             demo_dir = os.path.join(wt, "parser")
         else:
             demo_dir = wt
         # the commands may refer to SEED/: provide a copy (untracked)
         shutil.copytree(seed, os.path.join(wt, "SEED"), ignore=shutil.ignore_patterns("PROMPT.txt", "PROPERTY.txt"))
-        demo_cmd = meta.get("demo_cmd", "").replace(f"/tmp/wt/{pid}", wt)
+        demo_cmd = meta.get("demo_cmd", "").replace(f"{base}/{pid}", wt)
         demos = [f for f in os.listdir(seed) if f.startswith(f"demo{k}")]
         os.makedirs(demo_dir, exist_ok=True)
 
@@ -100,7 +103,7 @@ def main():
             # run the checks against the patched worktree
             for c in checks:
                 t0 = time.time()
-                env = dict(ENV, VERIF_REPO=wt, VERIF_ALT_OUT=f"/tmp/ev/out/{pid}-{k}")
+                env = dict(ENV, VERIF_REPO=wt, VERIF_ALT_OUT=f"/tmp/ev/out/{name}")
                 rc_c, out_c = sh(f"/verif/check {c} quick", "/verif", timeout=1500, env=env)
                 verdict = {0: "pass", 1: "VIOLATION", 2: "inconclusive"}.get(rc_c, f"rc={rc_c}")
                 first = ""
@@ -109,15 +112,15 @@ def main():
                         first = line.strip()[:300]
                         break
                 res["checks"][c] = {"verdict": verdict, "wall_s": round(time.time() - t0, 1), "first": first}
-                print(f"  {pid}-{k} {c}: {verdict} {first[:160]}", flush=True)
+                print(f"  {name} {c}: {verdict} {first[:160]}", flush=True)
     finally:
         subprocess.run(f"git -C /repo worktree remove --force {wt}", shell=True, capture_output=True)
         shutil.rmtree(wt, ignore_errors=True)
-    json.dump(res, open(f"/tmp/ev/results/{pid}-{k}.json", "w"), indent=1)
+    json.dump(res, open(f"/tmp/ev/results/{name}.json", "w"), indent=1)
     caught = [c for c, v in res["checks"].items() if v["verdict"] == "VIOLATION"]
-    print(f"{pid}-{k}: confirmed={res['confirmed']} caught_by={caught} own_check={res['checks'].get(pid, {}).get('verdict')}")
+    print(f"{name}: confirmed={res['confirmed']} caught_by={caught} own_check={res['checks'].get(pid, {}).get('verdict')}")
     if res["confirmed"]:
-        dst = f"/verif/seeded/{pid}-{k}"
+        dst = f"/verif/seeded/{name}"
         os.makedirs(dst, exist_ok=True)
         shutil.copy(patch, f"{dst}/patch.diff")
         for f in demos:
